@@ -1,6 +1,6 @@
 (* What property C18 demands, written from the property text.  No proofs here.
 
-   The subscriber asks for a snapshot and applies what it receives, in channel
+   A subscriber asks for a snapshot and applies what it receives, in channel
    order: a reach event stores the route under (peer, prefix, path id), a
    withdraw event deletes it, a PeerDown forgets the peer (RFC 7854 s4.9).  When
    every writer has finished, what it holds must be exactly the pre-policy and
@@ -14,6 +14,16 @@ Open Scope N_scope.
 (* the RIB's two Adj-RIB-In views: Table::iter_reach and Table::iter_reach_post *)
 Definition rib_pre (g : glob) : key -> option N := ribv false (g_rib g).
 Definition rib_post (g : glob) : key -> option N := ribv true (g_rib g).
+
+(* a path kept after its peer's session went down with graceful restart (its Source is
+   marked stale).  A consumer that saw the PeerDown has forgotten it (RFC 7854 s4.9)
+   and hears of it again when it is re-announced or purged. *)
+Definition stale_retained (g : glob) (k : key) : Prop := g_rib g k <> None /\ is_stale g k = true.
+
+(* what subscription [j] must hold for key [k], in the kind [b] *)
+Definition holds_exactly (g : glob) (j : nat) (b : bool) (k : key) : Prop :=
+  let f := (if b then fold_post else fold_pre) (g_evs g j) k in
+  f = ribv b (g_rib g) k \/ (stale_retained g k /\ f = None).
 
 (* the last event that concerns key [k] in the kind [b] (false: pre-policy, true:
    post-policy), read from the newest end: [Some x] = "state is x", [None] = the
@@ -40,7 +50,7 @@ Definition all_done (s : sys) : Prop := forall i, next_step (s_thr s i) = None.
 Definition op_owner (p : N) (o : op) : Prop :=
   match o with
   | Ins k _ | Rem k => k_peer k = p
-  | Up q | Down q => q = p
+  | Up q | Down q | GrDown q => q = p
   | _ => False
   end.
 Definition wf_progs (progs : list (list op)) : Prop :=
